@@ -18,7 +18,10 @@ RULE = ('Hypothesis draws a model class (UNIFAC, Dortmund, NIST with groups assi
         'random multiplicative direction; permutation equivariance; group-less members exactly 1; ideal '
         'Gamma/Phi/PCF exactly 1. In two thirds of the cases the same model object is first evaluated at another drawn '
         'temperature and the equimolar composition (warm-up); after every judged evaluation the returned array is '
-        'modified in place and the evaluation repeated (results must not alias internal state). Non-trivial: >=2 group-bearing chemicals with 0<x<1 (for Gibbs-Duhem additionally '
+        'modified in place and the evaluation repeated (results must not alias internal state); a vertex is also '
+        'passed as a list of ints and an int array; the construction check builds the requested class from a drawn '
+        'container (tuple/list/generator/map/iterator) after another class was built for the same Chemical objects '
+        'and compares class, chemicals and values with a model built in emptied caches. Non-trivial: >=2 group-bearing chemicals with 0<x<1 (for Gibbs-Duhem additionally '
         'gamma actually changed). Distinct by (check, class, chemical tuple, composition pattern, drawn index).')
 ASSUMPTIONS = [
     'NIST groups are assigned by name as in the NISTActivityCoefficients doctest, on private Chemical objects',
@@ -29,7 +32,7 @@ ASSUMPTIONS = [
     'at a composition where every group-bearing chemical has x=0 the property only fixes the value of the '
     'group-less members (exactly 1); the call must still return',
 ]
-REQUIRED_CELLS = {'quick': ['warm-up', 'cls=UNIFAC', 'cls=Dortmund', 'cls=NIST', 'cls=Ideal', 'comp=vertex', 'comp=trace',
+REQUIRED_CELLS = {'quick': ['int-typed-x', 'construct:first=other', 'construct:container=generator', 'warm-up', 'cls=UNIFAC', 'cls=Dortmund', 'cls=NIST', 'cls=Ideal', 'comp=vertex', 'comp=trace',
                             'comp=zeros', 'comp=nearvertex', 'gl=1', 'varies:Dortmund', 'varies:NIST', 'varies:UNIFAC'],
                   'thorough': []}
 
@@ -184,6 +187,16 @@ def evaluate(ctx, G, x, T, site, region):
     g = as_vec(raw, len(x)).copy()
     if not np.isfinite(g).all() or (g <= 0).any():
         ctx.fail(f'{site}|{region}|nonfinite', f'gamma = {g.tolist()} at x = {list(map(float, x))}')
+    # an integer-typed composition (a vertex written [1, 0, 0]; the argument is documented array_like) is the same
+    # composition: the result must equal the one for the float array
+    if all(float(v).is_integer() for v in x):
+        for label, xi in (('int-list', [int(v) for v in x]), ('int-array', np.array([int(v) for v in x]))):
+            raw_i = np.asarray(ctx.call(site, G, xi, T, region=region))
+            gi = as_vec(raw_i, len(x))
+            if not np.array_equal(gi, g):
+                ctx.fail(f'{site}|{region}|int-input', f'{label} {list(map(int, x))}: gamma = {gi.tolist()} ({raw_i.dtype}), '
+                                                       f'float input gives {g.tolist()}')
+        ctx.cell('int-typed-x')
     # results must not alias internal state: scribble on the returned array and evaluate again
     if isinstance(raw, np.ndarray) and raw.flags.writeable and raw.size:
         raw *= 0.5; raw += 7.0
@@ -387,6 +400,54 @@ def prop_ideal(ch, ctx):
     ctx.nontriv(['ideal', what, names, comp])
 
 
+def _activity_caches():
+    import sys
+    mod = sys.modules['thermosteam.equilibrium.activity_coefficients']
+    seen = []
+    for obj in vars(mod).values():
+        if isinstance(obj, type):
+            for k in obj.__mro__:
+                d = k.__dict__.get('_cached')
+                if isinstance(d, dict) and not any(d is e for e in seen):
+                    seen.append(d)
+    return seen
+
+
+def prop_construction(ch, ctx):
+    """The object returned for (class, chemicals) is that class's model for those chemicals, whatever iterable carried
+    the chemicals and whichever other model classes were constructed for the same Chemical objects before."""
+    case = draw_case(ch, classes=('Dortmund', 'UNIFAC', 'NIST'))
+    x, comp = draw_x(ch, case.n)
+    first = ch.choice('first', ['none', 'UNIFAC', 'Dortmund', 'NIST', 'Ideal'])
+    container = ch.choice('container', ['tuple', 'list', 'generator', 'map', 'iter', 'tuple'])
+    cells(ctx, case, comp, x)
+    ctx.cell('construct:first=' + ('none' if first == 'none' else ('same' if first == case.cls else 'other')))
+    ctx.cell('construct:container=' + container)
+    region = f'cls={case.cls},first={first},container={container}'
+    if first != 'none':
+        G0 = ctx.call('construct.first', CLASSES[first][0], case.chems, region=region)
+        ctx.call('construct.first.call', G0, np.ones(case.n) / case.n, case.T, region=region)
+    arg = {'tuple': lambda: case.chems, 'list': lambda: list(case.chems), 'generator': lambda: (c for c in case.chems),
+           'map': lambda: map(lambda c: c, case.chems), 'iter': lambda: iter(case.chems)}[container]()
+    G = ctx.call('construct.new', case.klass, arg, region=region)
+    want = case.klass if len(case.gidx) >= 2 else eq.IdealActivityCoefficients
+    if type(G) is not want:
+        ctx.fail(f'construct|{region}|wrong-class', f'{case.names}: requested {case.klass.__name__} ({len(case.gidx)} group-bearing '
+                                                    f'chemicals), got {type(G).__name__}')
+    if tuple(G.chemicals) != case.chems:
+        ctx.fail(f'construct|{region}|wrong-chemicals', f'requested {case.names}, the model reports {[c.ID for c in G.chemicals]}')
+    g = evaluate(ctx, G, x, case.T, 'construct.call', case.region(x, comp))
+    # reference: the same class built from a tuple with every activity-model cache emptied
+    for d in _activity_caches(): d.clear()
+    Gref = ctx.call('construct.ref', case.klass, case.chems, region=region)
+    gref = as_vec(ctx.call('construct.ref.call', Gref, np.array(x, float), case.T, region=region), case.n)
+    if not np.array_equal(g, gref):
+        ctx.fail(f'construct|{region}|mismatch', f'{case.names} x={list(map(float, x))} T={case.T!r}: {g.tolist()} but a freshly '
+                                                 f'built model gives {gref.tolist()}')
+    if case.interesting(x):
+        ctx.nontriv(['construct', first, container, case.key(x)])
+
+
 PROPS = {
     'purity': (prop_purity, 800, 30000),
     'functional': (prop_functional, 800, 30000),
@@ -395,4 +456,5 @@ PROPS = {
     'permutation': (prop_permutation, 800, 30000),
     'groupless': (prop_groupless, 700, 20000),
     'ideal': (prop_ideal, 300, 5000),
+    'construction': (prop_construction, 600, 20000),
 }
